@@ -2,8 +2,10 @@ package timednetconn
 
 import (
 	"errors"
+	"fmt"
 	"io"
 	"net"
+	"os"
 	"time"
 )
 
@@ -94,4 +96,48 @@ func verifHarness_C14_deadlines(k1 int, k2 int, k3 int, fail int) {
 	}
 	verifAssert(c.Close() == nil && fake.events[len(fake.events)-1] == 5, "C14/T1/close-forwarded")
 	verifReach("C14/T1")
+}
+
+var verifErrIO = errors.New("verif: transport error")
+
+// connection whose Read and Write return a scripted outcome
+type verifOutcomeConn struct {
+	verifConn
+	n   int
+	err error
+}
+
+func (c *verifOutcomeConn) Read(p []byte) (int, error)  { return c.n, c.err }
+func (c *verifOutcomeConn) Write(p []byte) (int, error) { return c.n, c.err }
+
+// T1p: the outcome of the wrapped call is the outcome of the call, whatever it is: an arbitrary byte count together
+// with no error, a generic transport error, the deadline error itself or a deadline error wrapped by the transport.
+// A write that runs into its deadline is a failed write, not a silent drop. kind 0 = Read, 1 = Write.
+func verifHarness_C14_outcome(kind int, errKind int) {
+	defer verifPatchClock()()
+	rt, wt := verifNondetI64(), verifNondetI64()
+	verifAssume(rt >= 0 && rt < 1<<50 && wt >= 0 && wt < 1<<50)
+	n := verifNondetRange(0, 8)
+	var want error
+	switch errKind {
+	case 1:
+		want = verifErrIO
+	case 2:
+		want = os.ErrDeadlineExceeded
+	case 3:
+		want = fmt.Errorf("write tcp: %w", os.ErrDeadlineExceeded)
+	}
+	fake := &verifOutcomeConn{n: n, err: want}
+	c := New(time.Duration(rt), time.Duration(wt), fake)
+	buf := make([]byte, 8)
+	var got int
+	var err error
+	if kind == 0 {
+		got, err = c.Read(buf)
+	} else {
+		got, err = c.Write(buf)
+	}
+	verifAssert(err == want, "C14/T1p/error-of-the-wrapped-call-is-reported-unchanged")
+	verifAssert(got == n, "C14/T1p/byte-count-of-the-wrapped-call-is-reported-unchanged")
+	verifReach("C14/T1p")
 }
